@@ -55,6 +55,8 @@ class Exec(HeapMixin, ExprMixin, CallMixin, StmtMixin):
         self.facts = []
         self.qguards = []
         self.qvars = []
+        self.dec_ids = set()
+        self.class_facts = False     # emit `class_of(x) <: declared class` typing facts (only needed for isinstance)
         self._fact_ids = set()
         self.obs = []
         self.script = []
@@ -285,10 +287,7 @@ class Exec(HeapMixin, ExprMixin, CallMixin, StmtMixin):
                     for t in s.targets:
                         self.assign(t, v)
                 ret = body[-1].value
-                conj = ret.values if isinstance(ret, ast.BoolOp) and isinstance(ret.op, ast.And) else [ret]
-                for k, c in enumerate(conj):
-                    v = self.eval_pure(lambda c=c: self.eval(c))
-                    out.append((f'{name}[{k}]' if len(conj) > 1 else name, self.truth(v)))
+                out.extend(self._split_conj(ret, name, pred.__module__))
             else:
                 def run():
                     try:
@@ -300,6 +299,42 @@ class Exec(HeapMixin, ExprMixin, CallMixin, StmtMixin):
                 out.append((name, self.truth(v)))
         finally:
             self.frame, self.spec_mode, self.depth = save
+        return out
+
+    def _split_conj(self, ret, name, modname, depth=0):
+        """Top-level conjuncts of a predicate body; a conjunct that is a bare call of another simple spec
+        predicate is split recursively (labels name[k] / callee[k])."""
+        import sys as _sys
+        out = []
+        conj = ret.values if isinstance(ret, ast.BoolOp) and isinstance(ret.op, ast.And) else [ret]
+        for k, c in enumerate(conj):
+            label = f'{name}[{k}]' if len(conj) > 1 else name
+            if depth < 3 and isinstance(c, ast.Call) and isinstance(c.func, ast.Name) and not c.keywords \
+                    and not any(isinstance(a, ast.Starred) for a in c.args):
+                pm = _sys.modules.get(modname)
+                fn = getattr(pm, c.func.id, None) if pm is not None else None
+                if fn is not None and hasattr(fn, '__code__') and c.func.id not in SPEC_HELPERS:
+                    node = S.pred_ast(fn)
+                    body = list(node.body)
+                    if body and isinstance(body[0], ast.Expr) and isinstance(body[0].value, ast.Constant):
+                        body = body[1:]
+                    if all(isinstance(s, ast.Assign) for s in body[:-1]) and isinstance(body[-1], ast.Return) \
+                            and isinstance(body[-1].value, ast.BoolOp) and isinstance(body[-1].value.op, ast.And):
+                        args = [self.eval_pure(lambda a=a: self.eval(a)) for a in c.args]
+                        loc = self.bind_params(node, args, {}, '$spec:' + fn.__module__)
+                        save = self.frame
+                        self.frame = Frame(None, '$spec:' + fn.__module__, loc)
+                        try:
+                            for s in body[:-1]:
+                                v = self.eval_pure(lambda s=s: self.eval(s.value))
+                                for t in s.targets:
+                                    self.assign(t, v)
+                            out.extend(self._split_conj(body[-1].value, c.func.id, fn.__module__, depth + 1))
+                        finally:
+                            self.frame = save
+                        continue
+            v = self.eval_pure(lambda c=c: self.eval(c))
+            out.append((label, self.truth(v)))
         return out
 
     def call_specfn(self, f, args, kwargs):
@@ -581,6 +616,7 @@ class Exec(HeapMixin, ExprMixin, CallMixin, StmtMixin):
                 pred, props = pred
             for label, term in self.spec_terms(pred, env):
                 self.oblige(f'{kind}:L{ordn}:{label}', term, kind='inv', props=props)
+                self.assume(term)       # staged
         if kind == 'inv-step' and spec.get('modifies') is not None:
             self.frame_check(self._loop_head, spec['modifies'], env, f'L{ordn}', spec.get('props'),
                              alloc0=self.arr('alloc', entry_state))
@@ -792,4 +828,5 @@ def _h_is_none(eng, x):
 
 SPEC_HELPERS = dict(implies=_h_implies, iff=_h_iff, index_of=_h_index_of, order_of=_h_order_of, key_at=_h_key_at,
                     is_fresh=_h_is_fresh, same_elems=_h_same_elems, same_dict=_h_same_dict, typeof=_h_typeof, same=_h_same,
+                    same_obj=_h_same,
                     is_none=_h_is_none)
